@@ -405,11 +405,12 @@ func ReplayManifestFile(fp *os.File, extMagic uint16, opt Options) (Manifest, in
 			return Manifest{}, 0, err
 		}
 		length := y.BytesToU32(lenCrcBuf[0:4])
-		// Sanity check to ensure we don't over-allocate memory.
-		if length > uint32(stat.Size()) {
-			return Manifest{}, 0, fmt.Errorf(
-				"Buffer length: %d greater than file size: %d. Manifest file might be corrupted",
-				length, stat.Size())
+		// A change set that claims more bytes than the file still holds was only partially
+		// appended (torn tail). Stop here, exactly as for a short read of the body below, so
+		// that the caller truncates it away. This also ensures we don't over-allocate memory
+		// when the length itself is garbage.
+		if int64(length) > stat.Size()-r.count {
+			break
 		}
 		var buf = make([]byte, length)
 		if _, err := io.ReadFull(&r, buf); err != nil {
